@@ -7,7 +7,7 @@ from vlib import common as C, serve as S, reqgen as G, strict_http as H, servech
 
 TRUSTED = ['scripted transport: any non-empty prefix may be accepted per write call; flush is a separate call']
 ASSUMPTIONS = ['strict grammar oracle vlib/strict_http.py written independently of the serialiser']
-WITH_MODEL = False
+WITH_MODEL = True
 
 SERVER_HEADER_NAMES = {x.lower() for x in [
     'Access-Control-Allow-Origin', 'Access-Control-Allow-Credentials', 'Access-Control-Allow-Methods', 'Access-Control-Allow-Headers',
